@@ -86,6 +86,10 @@ def run(ctx):
         zname, zoff = R.choice([("+0200", 7200), ("-0500", -18000), ("UTC", 0), ("+0545", 20700)])
         ex2, off2 = expected(w, A, B, aware, string_zone=zoff)
         cases.append({"s": iso + " " + zname, "langs": ["en"], "settings": st, "expect": expect_str(ex2, off=off2), "stratum": "absolute+zone"})
+        # custom format that reads the string's own offset (%z): same law as for a zone the absolute parser pops
+        zs = "%s%02d%02d" % ("+" if zoff >= 0 else "-", abs(zoff) // 3600, abs(zoff) % 3600 // 60)
+        cases.append({"s": w.strftime("%d.%m.%Y %H:%M:%S") + " " + zs, "langs": ["en"], "settings": st, "fmts": ["%d.%m.%Y %H:%M:%S %z"],
+                      "expect": expect_str(ex2, off=off2), "stratum": "custom-format+%z"})
         # relative: 'now' is the reference, which a naive RELATIVE_BASE places in TIMEZONE
         stb = dict(st, RELATIVE_BASE=w)
         cases.append({"s": "now", "langs": ["en"], "settings": stb, "expect": expect_str(ex, off=off), "stratum": "relative"})
@@ -200,5 +204,5 @@ def run(ctx):
     res["coverage"]["skipped_gap_or_fold"] = skipped
     res["coverage"]["evaluations"] += nlocal
     res["assumptions"] = ["IANA zones: pytz's database and localize/astimezone are the oracle (the model is parametric there: those cases are 'rejected: iana' on the model side) — partial",
-                          "local times in DST gaps or folds are excluded, as the property states", "custom formats with %z are outside this property's format family (see DESIGN §7 #12)"]
+                          "local times in DST gaps or folds are excluded, as the property states", "custom formats with %z are inside (a string that carries its own zone, read by the custom-format parser)"]
     return res
